@@ -2,6 +2,7 @@
 //! `<op> <args…> => <canonical result>`.  The Lean driver replays the left-hand sides through the
 //! model; bin/check diffs the two streams.
 mod gen;
+mod monitors;
 mod proto;
 mod rng;
 mod world;
